@@ -29,9 +29,7 @@ ASSUMPTIONS = [
     'the dereference trace is diagnostic only (how a range is walked is not '
     'part of the property)',
 ]
-FLOORS = {'probes': 2000, 'range_evals_traced': 200,
-          'cross_sheet_requests_traced': 100, 'resolve_ranges_cases': 100,
-          'columns_roundtrip': 18278, 'name_probes': 20}
+FLOORS = {'probes': 2000, 'name_probes': 20}
 ANCHOR_FUNCS = {
     'xlcalculator/ast_nodes.py': ['RangeNode.eval', 'RangeNode.full_address',
                                   'EvalContext.set_sheet'],
@@ -466,6 +464,10 @@ def run(ctx):
     import importlib
     from xlcalculator import xltypes, tokenizer
     utils = importlib.import_module('xlcalculator.utils')
+    if not (hasattr(utils, 'resolve_ranges') and hasattr(xltypes, 'XLRange')):
+        ctx.note('helper sub-check skipped: utils.resolve_ranges / '
+                 'xltypes.XLRange not present under these names')
+        return
     for _ in range(40 if not thorough else 400):
         s = rng.choice(SHEETS)
         c1, r1 = rng.randint(1, 60), rng.randint(1, 60)
@@ -488,7 +490,8 @@ def run(ctx):
                          f'sheet {s!r} and row-major {want_m[:2]}...',
                          {'text': text, 'observed': str(got)[:1000]},
                          monitor='helper-contract', group=what)
-    if ctx.shard == 0:
+    if ctx.shard == 0 and hasattr(tokenizer, 'num2col') and \
+            hasattr(tokenizer, 'col2num'):
         bad = None
         for n in range(1, 18279):
             letters = ref.col_letters(n)
